@@ -935,7 +935,7 @@ fn generate(ctx: &Ctx) {
   ctx.rule("(a) complete families of u32 sets (all 4096 subsets of a 12-index universe; prefix sets; strided, multiplicative-hash, run-union and dense-with-holes sets over full parameter products), each encoded by the library and decoded back + harness-built legacy twin; (b),(c) stateright BFS to closure over revoke/unrevoke batch histories on real documents, batches are ordered index sequences with duplicates; membership of both services and check_status of every probe index judged after every step, status-entry variants once per distinct real document state. distinct_nontrivial = distinct set cases (every one runs the whole encode/decode path) + unique document states of (b)");
   ctx.assume("roaring (portable serialisation) and flate2 (zlib) are trusted lossless codecs; the harness builds legacy endpoints with them and its own base64 encoder");
   ctx.assume("legacy form = the single text form Base64Url(zlib(roaring)) base64-encoded once more; variants on which standard and url-safe alphabets or padding would differ are recorded, not judged");
-  let max = ctx.by_tier(5_000u32, 100_000u32);
+  let max = ctx.by_tier(20_000u32, 100_000u32);
 
   // subsets of the 12-index universe
   run_sets(ctx, "subset12", (0..4096u16).map(|mask| Case::Subset { mask }).collect());
@@ -1002,23 +1002,28 @@ fn generate(ctx: &Ctx) {
   // (b) + (c): ordered batches of length 0..=2 (quick) / 0..=3 (thorough) on the 4-index universe; thorough adds
   // the 5-index universe with batches of length 0..=2
   let runs: &[(u8, u8)] = if ctx.quick() { &[(0, 2)] } else { &[(0, 3), (1, 2)] };
-  for &(uni, max_len) in runs {
-    for kind in 0..2u8 {
-      for init in 0..2u8 {
-        let name = format!(
-          "history {} start={} universe={:?} ordered batches of length 0..={max_len} ({} per op and service)",
-          if kind == 0 { "CoreDocument" } else { "IotaDocument" },
-          if init == 0 { "fresh" } else { "legacy" },
-          universe(uni),
-          batch_count(uni, max_len)
-        );
-        let st = vx::sr::run(ctx, &name, None, |col| HModel::new(kind, init, uni, max_len, col));
-        for i in 0..st.unique {
-          ctx.distinct(&("hist", uni, kind, init, i));
+  // stateright's BFS gets little parallelism out of these small, wide graphs; the independent models run side by side
+  std::thread::scope(|sc| {
+    for &(uni, max_len) in runs {
+      for kind in 0..2u8 {
+        for init in 0..2u8 {
+          sc.spawn(move || {
+            let name = format!(
+              "history {} start={} universe={:?} ordered batches of length 0..={max_len} ({} per op and service)",
+              if kind == 0 { "CoreDocument" } else { "IotaDocument" },
+              if init == 0 { "fresh" } else { "legacy" },
+              universe(uni),
+              batch_count(uni, max_len)
+            );
+            let st = vx::sr::run(ctx, &name, None, |col| HModel::new(kind, init, uni, max_len, col));
+            for i in 0..st.unique {
+              ctx.distinct(&("hist", uni, kind, init, i));
+            }
+          });
         }
       }
     }
-  }
+  });
   ctx.bound("max_set_size", max);
   ctx.bound("subset_universe", U12);
   ctx.bound("history_universe", UNI4);
